@@ -708,3 +708,25 @@ func classifyCsigParents(spec *gen.MsgSpec) {
 		}
 	}
 }
+
+// TestC01_LargeRSA: the round trip with RSA keys far above the usual sizes (a four-prime key of 8200 bits; its
+// operations are too slow for the random parts): every structure kind, all three PS algorithms.
+func TestC01_LargeRSA(t *testing.T) {
+	begin(t, "C01", "largersa")
+	n := 0
+	for _, alg := range []int64{refcose.AlgPS256, refcose.AlgPS384, refcose.AlgPS512} {
+		for _, kind := range []refcose.Kind{refcose.KSign1, refcose.KSign1Untagged, refcose.KSign} {
+			km := refcose.KeyMat{Alg: alg, RSA: "rsa8200"}
+			spec := gen.MsgSpec{Kind: kind, Prot: rc.Map(), Unprot: rc.Map(rc.E(rc.Int(4), rc.Bytes([]byte("large-rsa")))), Payload: rc.Hex("payload under a large key"), ExtNil: true,
+				Sigs: []gen.SigSpec{{Key: km, Prot: rc.Map(rc.E(rc.Int(1), rc.Int(alg))), Unprot: rc.Map()}}}
+			if kind != refcose.KSign {
+				spec.Prot = rc.Map(rc.E(rc.Int(1), rc.Int(alg)))
+			}
+			n++
+			stats.Eval()
+			stats.Class("large-rsa-key")
+			judge(t, "c01", c01Case{Spec: spec}, checkC01)
+		}
+	}
+	stats.ExhaustivePart("large RSA key x algorithm x structure", n)
+}
